@@ -55,6 +55,7 @@ type vEnv struct {
 	boolEnabledOnly bool // the enabling input is nil / true / false only (no textual spellings)
 
 	deployments int
+	deployCfgs  []any // configuration of the connector behind each deployment, in order
 	plugins     []*vPlugin
 	execEntered int
 	execLive    int
@@ -93,7 +94,10 @@ func (p *vPlugin) Close() error {
 }
 func (p *vPlugin) ID() string { return "container-1" }
 
-type vConnector struct{ env *vEnv }
+type vConnector struct {
+	env *vEnv
+	cfg any // the deployment configuration the connector was created from (nil: the local deployer)
+}
 
 func verifAtomicDeployed(e *vEnv) *vPlugin {
 	e.deployments++
@@ -121,8 +125,11 @@ func (c *vConnector) Deploy(ctx context.Context, src string) (deployer.Plugin, e
 		// connection over) only after the step's context was cancelled
 		<-ctx.Done()
 	}
+	verifAtomicDeployedWith(c.env, c.cfg)
 	return verifAtomicDeployed(c.env), nil
 }
+
+func verifAtomicDeployedWith(e *vEnv, cfg any) { e.deployCfgs = append(e.deployCfgs, cfg) }
 
 type vATP struct {
 	env *vEnv
@@ -367,11 +374,16 @@ type vDeployerRegistry struct{ env *vEnv }
 func (r *vDeployerRegistry) List() map[string]schema.Object               { return nil }
 func (r *vDeployerRegistry) DeploymentTypes() []deployer.DeploymentType { return []deployer.DeploymentType{"builtin"} }
 func (r *vDeployerRegistry) DeployConfigSchema(t deployer.DeploymentType) schema.OneOf[string] {
-	return schema.NewOneOfStringSchema[any](map[string]schema.Object{}, "deployer_name", false)
+	return vDeployConfigSchema{schema.NewOneOfStringSchema[any](map[string]schema.Object{}, "deployer_name", false)}
 }
 func (r *vDeployerRegistry) Create(t deployer.DeploymentType, config any, logger log.Logger) (deployer.Connector, error) {
-	return &vConnector{env: r.env}, nil
+	return &vConnector{env: r.env, cfg: config}, nil
 }
+
+// vDeployConfigSchema accepts every deployment configuration as it is (opaque to the provider).
+type vDeployConfigSchema struct{ schema.OneOf[string] }
+
+func (s vDeployConfigSchema) Unserialize(data any) (any, error) { return data, nil }
 
 func (e *vEnv) runnable() *runnableStep {
 	return &runnableStep{
